@@ -68,3 +68,10 @@ package protobuf
 //@ func ToParams
 //@   noframe
 //@   ensures result1 == nil ==> result0 != nil
+
+// Framing (C16): the bytes handed to the protobuf unmarshaller are exactly the frame announced by the length prefix -
+// the next len(b) stream bytes after the two length bytes - however the reader chunked them.
+//@ func readEnvelope
+//@   requires r != nil
+//@   modifies ghost("rpos")
+//@   callsite Unmarshal : rpos(r) == old(rpos(r)) + 2 + len(b) && (streaming() ==> forall i int :: 0 <= i && i < len(b) ==> b[i] == streamAt(r, old(rpos(r)) + 2 + i))
